@@ -27,56 +27,38 @@ Theorem C24_accepted_safe : forall n,
 Proof. exact accepted_safe_all. Qed.
 Print Assumptions C24_accepted_safe.
 
-(* etcd: for all workloads created under accepted names (distinct ids) every AddWorkload succeeds
-   and ListWorkloads(app, entry, node), for every filter combination of accepted-or-empty names,
-   returns exactly the workloads created under the non-ignored names *)
-Theorem C24_isolation_etcd : forall xs app entry node (sel : names -> bool),
-  Forall good xs -> NoDup (map nm_id xs) ->
-  valid_or_empty valid_app app -> valid_or_empty valid_entry entry -> valid_or_empty valid_node node ->
-  (forall x, sel x = true <-> under_names app entry node x) ->
+(* every workload (distinct ids) and every in-flight marker (distinct idents) under accepted names
+   is created, in the one key space of the store *)
+Theorem C24_all_created : forall xs ps, Forall good xs -> NoDup (map nm_id xs) ->
+  Forall good_proc ps -> NoDup (map p_ident ps) ->
+  built xs ps = space xs ps /\
   snd (build_names [] xs) = map (fun _ => true) xs /\
-  list_workloads Etcd (fst (build_names [] xs)) app entry node = map nm_id (filter sel xs).
-Proof. exact isolation_etcd_built. Qed.
-Print Assumptions C24_isolation_etcd.
+  snd (build_procs_n (fst (build_names [] xs)) ps) = map (fun _ => true) ps.
+Proof. exact built_space. Qed.
+Print Assumptions C24_all_created.
 
-(* redis: the same when the queried names contain no glob metacharacter *)
-Theorem C24_isolation_redis : forall xs app entry node (sel : names -> bool),
-  Forall good xs -> NoDup (map nm_id xs) ->
+(* ListWorkloads(app, entry, node), ON BOTH STORES and for every filter combination of
+   accepted-or-empty names (glob metacharacters included), succeeds and returns exactly the
+   workloads created under the non-ignored names, whatever deployments are in flight *)
+Theorem C24_isolation : forall b xs ps app entry node (sel : names -> bool),
+  Forall good xs -> NoDup (map nm_id xs) -> Forall good_proc ps -> NoDup (map p_ident ps) ->
   valid_or_empty valid_app app -> valid_or_empty valid_entry entry -> valid_or_empty valid_node node ->
-  no_meta app -> no_meta entry -> no_meta node ->
   (forall x, sel x = true <-> under_names app entry node x) ->
-  list_workloads Redis (fst (build_names [] xs)) app entry node = map nm_id (filter sel xs).
-Proof. exact isolation_redis_built. Qed.
-Print Assumptions C24_isolation_redis.
+  list_workloads b (built xs ps) app entry node = Some (map nm_id (filter sel xs)).
+Proof. exact isolation_built. Qed.
+Print Assumptions C24_isolation.
 
-(* GetDeployStatus(app, entry) counts, per node, exactly the workloads created under (app, entry) *)
-Theorem C24_deploy_status : forall b xs app entry (sel : names -> bool),
-  Forall good xs -> NoDup (map nm_id xs) ->
+(* GetDeployStatus(app, entry), on both stores: per node, the workloads created under (app, entry)
+   plus the in-flight counters created under (app, entry), nothing else *)
+Theorem C24_deploy_status : forall b xs ps app entry (selw : names -> bool) (selp : proc -> bool),
+  Forall good xs -> NoDup (map nm_id xs) -> Forall good_proc ps -> NoDup (map p_ident ps) ->
   valid_app app = true -> valid_entry entry = true ->
-  (b = Redis -> no_meta app /\ no_meta entry) ->
-  (forall x, sel x = true <-> (nm_app x = app /\ nm_entry x = entry)) ->
-  status_nodes b (fst (build_names [] xs)) app entry = map nm_node (filter sel xs).
-Proof. exact status_built. Qed.
-Print Assumptions C24_deploy_status.
-
-(* GetDeployStatus in full: deployed workloads plus deployments in flight (processing markers),
-   per node, of exactly (app, entry) -- on both stores (redis: queried names without glob
-   metacharacters); and every marker with a distinct ident can be created *)
-Theorem C24_deploy_status_total : forall b xs ps app entry (selw : names -> bool) (selp : proc -> bool),
-  Forall good xs -> NoDup (map nm_id xs) -> Forall good_proc ps ->
-  valid_app app = true -> valid_entry entry = true ->
-  (b = Redis -> no_meta app /\ no_meta entry) ->
   (forall x, selw x = true <-> (nm_app x = app /\ nm_entry x = entry)) ->
   (forall p, selp p = true <-> (p_app p = app /\ p_entry p = entry)) ->
-  deploy_status b (fst (build_names [] xs)) (map pentry ps) app entry =
+  deploy_status b (built xs ps) app entry =
   agg (map (fun x => (nm_node x, 1%N)) (filter selw xs) ++ map (fun p => (p_node p, p_count p)) (filter selp ps)).
-Proof. exact deploy_status_total. Qed.
-Print Assumptions C24_deploy_status_total.
-
-Theorem C24_processing_created : forall ps, Forall good_proc ps -> NoDup (map p_ident ps) ->
-  build_procs_n [] ps = (map pentry ps, map (fun _ => true) ps).
-Proof. exact processing_created. Qed.
-Print Assumptions C24_processing_created.
+Proof. exact deploy_status_built. Qed.
+Print Assumptions C24_deploy_status.
 
 (* WorkloadStatusStream(app, entry, node) on etcd watches exactly the status keys of the workloads
    created under the (non-ignored) names *)
@@ -94,6 +76,11 @@ Theorem C24_prefix_iff_names : forall app entry node x,
 Proof. exact prefix_iff_names. Qed.
 Print Assumptions C24_prefix_iff_names.
 
+(* the repaired redis store: the escaped SCAN pattern is a prefix test, for EVERY byte string *)
+Theorem C24_redis_pattern_is_prefix : forall b p k, under b p k = has_prefix p k.
+Proof. exact under_any. Qed.
+Print Assumptions C24_redis_pattern_is_prefix.
+
 (* the selection predicate of the boolean check evaluated on the implementation's answers
    (Model.created_under, on the request strings) is the theorems' "created under those names" *)
 Theorem C24_ok_selects : forall app entry node a, a_ok a = true ->
@@ -102,14 +89,17 @@ Theorem C24_ok_selects : forall app entry node a, a_ok a = true ->
 Proof. exact created_under_iff. Qed.
 Print Assumptions C24_ok_selects.
 
-(* the full statement is false on redis: accepted names with glob metacharacters collide *)
-Theorem C24_refuted_redis_glob :
+(* before the repair of the redis store (unescaped names in the pattern) the statement was false
+   there: app a* listed app ab; the repaired store answers exactly *)
+Theorem C24_old_redis_glob_refuted :
   exists xs app entry,
     Forall good xs /\ NoDup (map nm_id xs) /\ valid_app app = true /\ valid_entry entry = true /\
-    list_workloads Redis (fst (build_names [] xs)) app entry []
-    <> map nm_id (filter (fun x => bytes_eqb (nm_app x) app && bytes_eqb (nm_entry x) entry) xs).
-Proof. exact redis_glob_refuted. Qed.
-Print Assumptions C24_refuted_redis_glob.
+    list_workloads_redis_old (built xs []) app entry []
+    <> Some (map nm_id (filter (fun x => bytes_eqb (nm_app x) app && bytes_eqb (nm_entry x) entry) xs)) /\
+    list_workloads Redis (built xs []) app entry []
+    = Some (map nm_id (filter (fun x => bytes_eqb (nm_app x) app && bytes_eqb (nm_entry x) entry) xs)).
+Proof. exact redis_old_glob_refuted. Qed.
+Print Assumptions C24_old_redis_glob_refuted.
 
 (* the validation before the repair accepted colliding names (app a/b + entry c vs app a + entry b/c)
    and names that do not parse back (app /a); the repaired validation rejects them *)
@@ -117,8 +107,8 @@ Theorem C24_old_validation_refuted :
   exists x y, validate_deploy_old (nm_app x) (nm_entry x) = 0%N /\ validate_deploy_old (nm_app y) (nm_entry y) = 0%N /\
     (nm_app x, nm_entry x) <> (nm_app y, nm_entry y) /\ nm_id x <> nm_id y /\
     snd (build_names [] [x; y]) = [true; true] /\
-    list_workloads Etcd (fst (build_names [] [x; y])) (nm_app x) (nm_entry x) [] = [nm_id x; nm_id y] /\
-    list_workloads Redis (fst (build_names [] [x; y])) (nm_app x) (nm_entry x) [] = [nm_id x; nm_id y] /\
+    list_workloads Etcd (built [x; y] []) (nm_app x) (nm_entry x) [] = Some [nm_id x; nm_id y] /\
+    list_workloads Redis (built [x; y] []) (nm_app x) (nm_entry x) [] = Some [nm_id x; nm_id y] /\
     validate_deploy (nm_app x) (nm_entry x) <> 0%N /\ validate_deploy (nm_app y) (nm_entry y) <> 0%N.
 Proof. exact old_validation_refuted. Qed.
 Print Assumptions C24_old_validation_refuted.
@@ -128,3 +118,10 @@ Theorem C24_old_roundtrip_refuted :
     parse_name (make_name app entry ident) <> Some (app, entry, ident) /\ validate_deploy app entry <> 0%N.
 Proof. exact old_roundtrip_refuted. Qed.
 Print Assumptions C24_old_roundtrip_refuted.
+
+(* outside validation: with ".." a processing key escapes to where a deploy query looks and
+   ListWorkloads fails on it (one key space) *)
+Theorem C24_escaping_names_meet :
+  exists x p, list_workloads Etcd (fst (build_procs_n (fst (build_names [] [x])) [p])) (nm_app x) (nm_entry x) [] = None.
+Proof. exact escaping_names_meet. Qed.
+Print Assumptions C24_escaping_names_meet.
